@@ -1,6 +1,7 @@
 package main
 
 import (
+	"bytes"
 	"fmt"
 	"net"
 
@@ -12,9 +13,9 @@ func init() { runners["C19"] = runC19 }
 
 type builderCase struct {
 	name string
-	args *SX            // (name args...) as sent to the model
+	args *SX // (name args...) as sent to the model
 	call func(c *message.IKEPayloadContainer) error
-	want *SX            // the payload the specification says is appended; nil = nothing appended; "err" atom = error expected
+	want *SX // the payload the specification says is appended; nil = nothing appended; "err" atom = error expected
 }
 
 func genBuilder(r *Rng) builderCase {
@@ -42,7 +43,10 @@ func genBuilder(r *Rng) builderCase {
 	case 2:
 		nx, d := u8(), data(300)
 		return builderCase{"encrypted", L(A("encrypted"), Nn(uint64(nx)), Hx(d)),
-			func(c *message.IKEPayloadContainer) error { c.BuildEncrypted(message.IkePayloadType(nx), d); return nil }, L(A("sk"), Nn(uint64(nx)), Hx(d))}
+			func(c *message.IKEPayloadContainer) error {
+				c.BuildEncrypted(message.IkePayloadType(nx), d)
+				return nil
+			}, L(A("sk"), Nn(uint64(nx)), Hx(d))}
 	case 3:
 		g, d := u16(), data(300)
 		return builderCase{"keyexchange", L(A("keyexchange"), Nn(uint64(g)), Hx(d)),
@@ -181,7 +185,9 @@ func runC19(c *Ctx) error {
 	if _, err := c.M.Ask(fmt.Sprintf("(aka_full %d)", b2i(akaFull))); err != nil {
 		return err
 	}
-	fail := func(what, cs, exp, obs string) { r.Add(Finding{Kind: "instance", What: what, Case: cs, Expected: exp, Observed: obs}) }
+	fail := func(what, cs, exp, obs string) {
+		r.Add(Finding{Kind: "instance", What: what, Case: cs, Expected: exp, Observed: obs})
+	}
 	for i, n := 0, c.N(1500, 50000); i < n; i++ {
 		prior := genPayloadList(rng)
 		if rng.Chance(1, 4) {
@@ -223,6 +229,42 @@ func runC19(c *Ctx) error {
 			})
 			if shared != "-" && shared != "fault" {
 				fail("two payloads built by separate calls share a mutable object (state kept between builder calls)", fmt.Sprintf("(build-twice %s)", b1.args), "no shared memory", shared)
+			}
+		}
+		// one scratch container used for two messages: build, hand the list to NewMessage, Reset, build again - the first
+		// message (and the caller's own copy of the list) keep the payloads they had
+		if i%3 == 1 {
+			seed := rng.U64()
+			hist := run(func() string {
+				gr := NewRng(seed)
+				var sc message.IKEPayloadContainer
+				for k := gr.Range(1, 4); k > 0; k-- {
+					_ = genBuilder(gr).call(&sc)
+				}
+				if len(sc) == 0 {
+					return "-"
+				}
+				first := message.NewMessage(gr.U64(), gr.U64(), 34, false, true, 0, sc)
+				held := sc
+				snap := sxPayloads(held).String()
+				enc1, err1 := first.Encode()
+				sc.Reset()
+				for k := gr.Range(1, 4); k > 0; k-- {
+					_ = genBuilder(gr).call(&sc)
+				}
+				if now := sxPayloads(held).String(); now != snap {
+					return "the payload list handed out before Reset changed: " + snap + " -> " + now
+				}
+				if now := sxPayloads(first.Payloads).String(); now != snap {
+					return "the first message's payloads changed: " + snap + " -> " + now
+				}
+				if enc2, err2 := first.Encode(); (err1 == nil) != (err2 == nil) || !bytes.Equal(enc1, enc2) {
+					return "the first message encodes differently: " + hx(enc1) + " -> " + hx(enc2)
+				}
+				return "-"
+			})
+			if hist != "-" && hist != "fault" {
+				fail("builders called after Reset alter payloads built before it (the container's storage is re-used)", fmt.Sprintf("(build-reset-build seed=%d)", seed), "earlier payloads untouched", hist)
 			}
 		}
 		model, err := c.M.Ask(cs)
